@@ -114,8 +114,36 @@ func c06() {
 			return
 		}
 		run.Count("label_programs", 1)
-		out, err, pan, again := vlib.BuildLabelProgramAgain(ops)
+		// every fourth program is assembled once already while it is being built (some labels are not placed yet, so that
+		// call normally fails), then completed and assembled: a legitimate history of the public builder
+		early := -1
+		if i%4 == 1 && len(ops) > 2 {
+			early = 1 + r.Intn(len(ops)-1)
+			if r.Intn(3) == 0 { // directly behind the first jump, in front of everything that may need a bridge
+				for k, o := range ops {
+					if o.Kind == vlib.LJmp && k+1 < len(ops) {
+						early = k + 1
+						break
+					}
+				}
+			}
+		}
+		out, err, pan, again, earlyErr := vlib.BuildLabelProgramEarly(ops, early)
 		replay := map[string]any{"check": "C06", "desc": desc, "case": i, "ops": ops}
+		if early >= 0 {
+			replay["assembled_early_after_ops"], replay["early_assemble_error"] = early, earlyErr
+			desc += fmt.Sprintf(" [assembled early after %d ops: %q]", early, earlyErr)
+			run.Count("programs_assembled_early_while_incomplete", 1)
+			if earlyErr != "" && earlyErr != "-" {
+				run.Count("early_assemblies_that_failed_as_expected", 1)
+			}
+			if earlyErr == "" {
+				// the early call succeeded (every label it needed was placed): the builder has resolved the program as it
+				// stood; building on is then outside what the statement covers - counted, the final result is not judged
+				run.Count("early_assemblies_that_succeeded_final_result_not_judged", 1)
+				return
+			}
+		}
 		if pan != nil {
 			run.Violation("builder-panics", fmt.Sprintf("%s: the builder panics on a forward label program: %v", desc, pan), replay)
 			return
